@@ -115,6 +115,7 @@ pub fn schema_pad_u128() {
     let nr = rows.len();
     assert!(nr == 3, "[C18/rows] ROOT, PADDING and the zero-copy block are recorded");
     if nr == 3 {
+        assert!(rows[0].offset == 3 && rows[0].size == 29, "[C18/root] the row of a value covers everything written for it (padding included)");
         assert!(rows[1].offset == 3 && rows[1].size == 13, "[C18/padding.row] the padding row covers exactly the zero gap");
         assert!(rows[2].offset == 16 && rows[2].size == 16 && rows[2].align == 16, "[C18/aligned] a block of zero-copy data starts at a multiple of its recorded alignment");
     }
